@@ -362,7 +362,9 @@ class ModelCacheMixin:
             return min(cached, key=signed_key if signed else lambda v: v)
 
         m = super().min(e, extra_constraints=extra_constraints, signed=signed, exact=exact)
-        if len(extra_constraints) == 0:
+        # the backend's binary search does not always produce a model that attains the optimum; only remember that the
+        # cached models contain it when one of them really does
+        if len(extra_constraints) == 0 and m % 2 ** len(e) in self._get_solutions(e, allow_unconstrained=False):
             (self._min_signed_exhausted if signed else self._min_exhausted)[e.hash()] = e
         return m
 
@@ -383,7 +385,7 @@ class ModelCacheMixin:
             return max(cached, key=signed_key if signed else lambda v: v)
 
         m = super().max(e, extra_constraints=extra_constraints, signed=signed, exact=exact)
-        if len(extra_constraints) == 0:
+        if len(extra_constraints) == 0 and m % 2 ** len(e) in self._get_solutions(e, allow_unconstrained=False):
             (self._max_signed_exhausted if signed else self._max_exhausted)[e.hash()] = e
         return m
 
